@@ -673,3 +673,57 @@ proof! {
     #[cfg_attr(kani, kani::stub(half::binary16::arch::f64_to_f16, half::binary16::arch::f64_to_f16_fallback))]
     fn c12_abi_f64() { let mut buf: [u8; N] = kani::any(); buf[0] = 0xfb; l1_float(&buf, 9); reach!(); }
 }
+
+/// L2 for floats: decode(encode(Float(f))) is `f` in the codec's normal form (integral values
+/// come back as the integer with the same value; everything else as the same float).
+#[inline(always)]
+fn float_roundtrip(f: f64) {
+    use ciborium::value::Value;
+    match encode_value(&Value::Float(f)) {
+        Ok(bytes) => {
+            match decode_value(&bytes) {
+                Ok(v) => {
+                    match &v {
+                        Value::Float(g) => assert!(g.to_bits() == f.to_bits() || (g.is_nan() && f.is_nan()), "ABI CBOR: decode(encode(float)) is a different float"),
+                        Value::Integer(i) => assert!((i128::from(*i) as f64) == f, "ABI CBOR: decode(encode(integral float)) is a different integer"),
+                        _ => assert!(false, "ABI CBOR: encoded float decodes to a non-number"),
+                    }
+                    core::mem::forget(v);
+                }
+                Err(e) => { core::mem::forget(e); assert!(false, "ABI CBOR: encoding of a float does not decode"); }
+            }
+            core::mem::forget(bytes);
+        }
+        Err(e) => { core::mem::forget(e); assert!(false, "ABI CBOR: float does not encode"); }
+    }
+}
+
+//@ tier=off timeout=1500 mem=14 bits=64 unwind=12 unwindset="memcmp=12" fns=echo_wasm_abi::canonical::encode_value,enc_float,enc_int,write_major,echo_wasm_abi::canonical::decode_value
+//@ bounds="every f64 with 2^64 <= |f| < 2^100 (all of them integral)"
+//@ desc="ABI CBOR L2, integral floats beyond the CBOR integer range: decode(encode(Float(f))) must still denote f"
+proof! {
+    #[cfg_attr(kani, kani::stub(alloc::fmt::format, crate::stubs::fmt_format))]
+    #[cfg_attr(kani, kani::stub(half::binary16::arch::f16_to_f64, half::binary16::arch::f16_to_f64_fallback))]
+    #[cfg_attr(kani, kani::stub(half::binary16::arch::f64_to_f16, half::binary16::arch::f64_to_f16_fallback))]
+    fn c12_abi_float_roundtrip_beyond_u64() {
+        let f = f64::from_bits(kani::any());
+        kani::assume(f.is_finite() && f.abs() >= 18446744073709551616.0 && f.abs() < 1.2676506002282294e30);
+        float_roundtrip(f);
+        reach!();
+    }
+}
+
+//@ tier=off timeout=1500 mem=14 bits=64 unwind=12 unwindset="memcmp=12" fns=echo_wasm_abi::canonical::encode_value,enc_float,echo_wasm_abi::canonical::decode_value,dec_value
+//@ bounds="every non-integral finite f64, every NaN and both infinities"
+//@ desc="ABI CBOR L2, non-integral floats: decode(encode(Float(f))) == Float(f) bit for bit (NaN -> NaN), in whichever of the three widths the encoder picks"
+proof! {
+    #[cfg_attr(kani, kani::stub(alloc::fmt::format, crate::stubs::fmt_format))]
+    #[cfg_attr(kani, kani::stub(half::binary16::arch::f16_to_f64, half::binary16::arch::f16_to_f64_fallback))]
+    #[cfg_attr(kani, kani::stub(half::binary16::arch::f64_to_f16, half::binary16::arch::f64_to_f16_fallback))]
+    fn c12_abi_float_roundtrip_nonintegral() {
+        let f = f64::from_bits(kani::any());
+        kani::assume(!f.is_finite() || f.fract() != 0.0);
+        float_roundtrip(f);
+        reach!();
+    }
+}
